@@ -16,6 +16,9 @@ def main(pid, tier, repo=None):
         proto.rule_placeholder(ctx, infos)
         proto.rule_nolock(ctx, infos)
         proto.rule_publish_success(ctx)
+        from . import block
+        from ..engine import LIB_CRATES
+        block.run_block(ctx, LIB_CRATES)      # no blocking primitive besides the handle wait; no lock re-acquired while its guard is held
         proto.rule_spawn(ctx)
         proto.rule_render_op_results(ctx)
     ctx.assume("fairness and correctness of std::sync::{Mutex, Condvar} are trusted; interleavings involving a panic in a renderer are excluded")
